@@ -1705,6 +1705,9 @@ V("C28-get-incomplete-flag-set-conditionally","C28",EH,"""			dst.objectHeaders =
 			}""",expect="silent")
 V("C30-reset-keeps-a-small-cache","C30","internal/sessions/cache.go","""	ch.cache.Purge()""","""	if ch.cache.Len() > 512 {
 		ch.cache.Purge()
+	}""",expect="silent")
+V("C30-bearer-reset-keeps-a-small-cache","C30","pkg/services/object/acl/v2/service.go","""	b.bearerTokenCommonCheckCache.Purge()""","""	if b.bearerTokenCommonCheckCache.Len() > 512 {
+		b.bearerTokenCommonCheckCache.Purge()
 	}""",rule="C30.R8")
 V("C31-receiver-check-over-two-epochs","C31","cmd/neofs-node/object.go","""	return x.placement.ForEachContainerNodePublicKey(id, f)""","""	return x.placement.ForEachContainerNodePublicKeyInLastTwoEpochs(id, f)""",rule="C31.R5")
 V("C31-current-iteration-asks-previous-epoch","C31","pkg/services/object/placement/service.go","""	return s.forEachContainerNode(cnrID, false, func(node netmap.NodeInfo) bool {""","""	return s.forEachContainerNode(cnrID, true, func(node netmap.NodeInfo) bool {""",rule="C31.R5")
@@ -1720,3 +1723,64 @@ V("C34-expiration-lt-form","C34","pkg/morph/event/notary_preparator.go","""	if c
 	}
 
 	return ErrMainTXExpired""",expect="silent")
+AS="pkg/services/object/acl/v2/service.go"
+V("C30-revert-fix-v1-lifetime-in-cached-part","C30",AS,"""	// the cache is shared with the object validation which stores verdicts on
+	// the token's signature only, so nothing bound to the current epoch can be
+	// a part of the cached result
+	currentEpoch, err := b.nm.Epoch()
+	if err != nil {
+		return session.Object{}, errors.New("can't fetch current epoch")
+	}
+	if sToken.ExpiredAt(currentEpoch) {
+		return session.Object{}, apistatus.ErrSessionTokenExpired
+	}
+	if !sToken.ValidAt(currentEpoch) {
+		return session.Object{}, fmt.Errorf("%s: token is invalid at %d epoch)", invalidRequestMessage, currentEpoch)
+	}
+
+""","",rule="C30.R2",more=[{"file":AS,"old":"""	body, err := iprotobuf.GetFirstBytesField(mb)
+	if err != nil {
+		return token, fmt.Errorf("get body from calculated session token binary: %w", err)
+	}
+
+	if err := icrypto.AuthenticateToken(sessionTokenWithEncodedBody{""","new":"""	currentEpoch, err := b.nm.Epoch()
+	if err != nil {
+		return token, errors.New("can't fetch current epoch")
+	}
+	if token.ExpiredAt(currentEpoch) {
+		return token, apistatus.ErrSessionTokenExpired
+	}
+	if !token.ValidAt(currentEpoch) {
+		return token, fmt.Errorf("%s: token is invalid at %d epoch)", invalidRequestMessage, currentEpoch)
+	}
+
+	body, err := iprotobuf.GetFirstBytesField(mb)
+	if err != nil {
+		return token, fmt.Errorf("get body from calculated session token binary: %w", err)
+	}
+
+	if err := icrypto.AuthenticateToken(sessionTokenWithEncodedBody{"""}])
+V("C30-v1-lifetime-checked-twice","C30",AS,"""	body, err := iprotobuf.GetFirstBytesField(mb)
+	if err != nil {
+		return token, fmt.Errorf("get body from calculated session token binary: %w", err)
+	}
+
+	if err := icrypto.AuthenticateToken(sessionTokenWithEncodedBody{""","""	if currentEpoch, err := b.nm.Epoch(); err == nil && token.ExpiredAt(currentEpoch) {
+		return token, apistatus.ErrSessionTokenExpired
+	}
+
+	body, err := iprotobuf.GetFirstBytesField(mb)
+	if err != nil {
+		return token, fmt.Errorf("get body from calculated session token binary: %w", err)
+	}
+
+	if err := icrypto.AuthenticateToken(sessionTokenWithEncodedBody{""",rule="C30.R6")
+V("C30-v1-expiry-not-checked-per-request","C30",AS,"""	if sToken.ExpiredAt(currentEpoch) {
+		return session.Object{}, apistatus.ErrSessionTokenExpired
+	}
+	if !sToken.ValidAt""","""	if !sToken.ValidAt""",rule="C30.R2")
+V("C30-sessions-cache-reset-keeps-positives","C30","internal/sessions/cache.go","""	ch.cache.Purge()""","""	for _, k := range ch.cache.Keys() {
+		if res, ok := ch.cache.Peek(k); ok && res.err != nil {
+			ch.cache.Remove(k)
+		}
+	}""",expect="silent")
